@@ -99,12 +99,16 @@ impl PathBuf {
     #[verifier::external_body]
     pub fn display(&self) -> u8 { unimplemented!() }
 }
-/// `work_dir::is_in_work_dir(&path)`
-#[verifier::external_body]
-pub fn is_in_work_dir(p: &Path) -> (r: bool) ensures r == in_work_dir(p.buf()) { unimplemented!() }
-/// `domain::matches_extensions(path, &extensions)`
-#[verifier::external_body]
-pub fn matches_extensions(p: &Path, e: &FileExtensions) -> (r: bool) ensures r == matches_ext(p.buf(), *e) { unimplemented!() }
+/// `work_dir::is_in_work_dir(&path)` and `domain::matches_extensions(path, &extensions)`: real signatures,
+/// bodies exercised only by the bounded Kani harnesses (KANI unit)
+//@fn src/work_dir.rs is_in_work_dir assumed ret=r
+//@contract
+    ensures r == in_work_dir(path.buf()),
+//@end
+//@fn src/domain.rs matches_extensions assumed ret=r
+//@contract
+    ensures r == matches_ext(file.buf(), *extensions),
+//@end
 
 /// [C16.tmp] editor temporaries: `*~`, `.*.swp`, `.*.swx`
 pub open spec fn is_tmp_name(n: Name) -> bool {
